@@ -332,7 +332,11 @@ pub fn gen_ledger(r: &mut Rng, cfg: &GenCfg) -> Ledger {
                 out.push(GTx::new(date, tk, Kind::Accumulation, q, Decimal::new(r.range(1, 50_000), 2), gen_fee(r, true)));
             }
             Kind::Dividend => {
-                out.push(GTx::new(date, tk, Kind::Dividend, Decimal::new(r.range(1, 50_000), 2), gen_fee(r, true), Decimal::ZERO));
+                // every ninth dividend is a withholding adjustment booked on its own: nothing paid, tax only
+                // (decided from the drawn amount, so the stream of random draws is what it was)
+                let v = r.range(1, 50_000);
+                let total = if v % 9 == 0 { Decimal::ZERO } else { Decimal::new(v, 2) };
+                out.push(GTx::new(date, tk, Kind::Dividend, total, gen_fee(r, true), Decimal::ZERO));
             }
         }
     }
@@ -519,6 +523,34 @@ pub fn gen_cross_contention(r: &mut Rng, cfg: &GenCfg) -> Ledger {
     } else {
         out.sort_by_key(|t| t.date);
     }
+    out
+}
+
+/// A holding that ends a sliver above zero: purchases whose total exceeds what is later sold from the
+/// pool by 10⁻⁶ … 10⁻¹² of a share, sometimes followed by the sale of exactly that sliver. Shares are
+/// conserved to the last digit; nothing may be swept away as dust.
+pub fn gen_sliver_holding(r: &mut Rng, cfg: &GenCfg) -> Ledger {
+    let (ay, am, ad) = *r.pick(ANCHORS);
+    let anchor = d(ay, am, ad);
+    let tk = "AAA";
+    let sliver = match r.below(5) { 0 => Decimal::new(4, 7), 1 => Decimal::new(1, 6), 2 => Decimal::new(5, 8), 3 => Decimal::new(1, 9), _ => Decimal::new(1, 12) };
+    let whole = Decimal::from(r.range(1, 500));
+    let mut out: Ledger = Vec::new();
+    out.push(GTx::new(anchor - Duration::days(r.range(40, 400)), tk, Kind::Buy, whole + sliver, gen_price(r), gen_fee(r, cfg.fees)));
+    let mut sold = whole;
+    if r.chance(1, 2) {
+        let more = Decimal::from(r.range(1, 50));
+        out.push(GTx::new(anchor - Duration::days(r.range(32, 39)), tk, Kind::Buy, more, gen_price(r), gen_fee(r, cfg.fees)));
+        sold += more;
+    }
+    out.push(GTx::new(anchor, tk, Kind::Sell, sold, gen_price(r), gen_fee(r, cfg.fees)));
+    if r.chance(1, 2) {
+        out.push(GTx::new(anchor + Duration::days(r.range(31, 90)), tk, Kind::Sell, sliver, gen_price(r), Decimal::ZERO));
+    }
+    if cfg.max_tickers >= 2 && r.chance(1, 2) {
+        out.push(GTx::new(anchor - Duration::days(r.range(1, 30)), "BBB", Kind::Buy, gen_qty(r, false), gen_price(r), gen_fee(r, cfg.fees)));
+    }
+    out.sort_by_key(|t| t.date);
     out
 }
 
